@@ -12,6 +12,23 @@ REPO = os.environ.get('VX_REPO', '/repo')
 VERIF = os.path.dirname(os.path.dirname(os.path.abspath(__file__)))
 WORK = os.path.join(VERIF, 'work')
 
+FIXTURES = '''
+// corpus fixtures (not strum code): payload type with a non-zero Default, capture type, custom parse error, default_with functions
+#[derive(Debug, Clone, Copy, PartialEq, Eq)] pub struct Tag(pub u8);
+impl Default for Tag { fn default() -> Tag { Tag(7) } }
+#[derive(Debug, Clone, PartialEq, Eq)] pub struct Cap(pub String);
+impl From<&str> for Cap { fn from(s: &str) -> Cap { Cap(s.to_string()) } }
+impl core::fmt::Display for Cap { fn fmt(&self, f: &mut core::fmt::Formatter) -> core::fmt::Result { core::fmt::Display::fmt(self.0.as_str(), f) } }
+impl AsRef<str> for Cap { fn as_ref(&self) -> &str { self.0.as_str() } }
+#[derive(Debug, Clone, PartialEq, Eq)] pub struct PErr(pub String);
+pub fn perr(s: &str) -> PErr { PErr(s.to_string()) }
+pub fn dw_u8() -> u8 { 5 }
+pub fn dw_i32() -> i32 { -3 }
+pub fn dw_tag() -> Tag { Tag(9) }
+// strum::ParseError has exactly the variant the Verus mirror declares (exhaustive match without wildcard)
+const _: fn(strum::ParseError) = |e| match e { strum::ParseError::VariantNotFound => () };
+'''
+
 PROG_RE = re.compile(r'^(P\d{3,5})[A-Za-z_]')
 
 class BuildFailure(Exception):
@@ -46,7 +63,7 @@ def write_crate(crate_dir, pkg, programs, features=(), extra_lib='', dep_feature
         lib.append('pub mod %s;' % mod)
         with open(os.path.join(src, mod + '.rs'), 'w') as f:
             f.write(p.module_source())
-    lib.append('#[derive(Debug, Clone, Copy, PartialEq, Eq)] pub struct Tag(pub u8);\nimpl Default for Tag { fn default() -> Tag { Tag(7) } }')
+    lib.append(FIXTURES)
     lib.append(extra_lib)
     with open(os.path.join(src, 'lib.rs'), 'w') as f:
         f.write('\n'.join(lib) + '\n')
